@@ -300,32 +300,63 @@ def enum_paths(s, start, stop_blocks, limit=20000):
     return out
 
 
-def eval_tree(e, decide):
+def eval_tree(e, decide, bool_leaves=False):
     """walk an ite tree; decide(cond, cases) -> the chosen case value (int | 'otherwise') or None to explore all.
-    Returns the set of reachable leaves."""
-    out = []
+    Returns the list of reachable leaves.  Boolean negation wrapped around a decision (`!(a && b)`) is pushed to the
+    leaves; a condition that is itself a decision (`if a && b`) is evaluated first."""
+    def flip(leaf):
+        if isinstance(leaf, tuple) and leaf and leaf[0] == 'int' and leaf[2] == 'bool':
+            return ('int', 1 - leaf[1], 'bool')
+        if isinstance(leaf, tuple) and leaf and leaf[0] == 'un' and leaf[1] == 'Not':
+            return leaf[2]
+        return ('un', 'Not', leaf)
 
     def rec(x):
+        if isinstance(x, tuple) and x and x[0] == 'un' and x[1] == 'Not' and isinstance(x[2], tuple) and x[2] and x[2][0] in ('ite', 'un'):
+            return [flip(l) for l in rec(x[2])]
         if isinstance(x, tuple) and x and x[0] == 'ite':
             vals = [v for v, _ in x[2]]
-            ch = decide(x[1], vals)
+            cond = x[1]
+            if isinstance(cond, tuple) and cond and (cond[0] == 'ite' or (cond[0] == 'un' and cond[1] == 'Not' and cond[2][0] == 'ite')):
+                # nested decision as condition: each of its boolean outcomes selects a branch
+                out = []
+                for cl in rec(cond):
+                    if isinstance(cl, tuple) and cl and cl[0] == 'int':
+                        ch = as_bool(bool(cl[1]), vals) if set(vals) <= {0, 1, 'otherwise'} else cl[1]
+                        out += pick(x, ch)
+                    else:
+                        for _, sub in x[2]:
+                            out += rec(sub)
+                return out
+            ch = decide(cond, vals)
             if ch is None:
+                out = []
                 for _, sub in x[2]:
-                    rec(sub)
-            else:
-                for v, sub in x[2]:
-                    if v == ch:
-                        rec(sub)
-                        return
-                for v, sub in x[2]:
-                    if v == 'otherwise':
-                        rec(sub)
-                        return
-        else:
-            out.append(x)
+                    out += rec(sub)
+                return out
+            return pick(x, ch)
+        if bool_leaves and isinstance(x, tuple) and x and x[0] not in ('int', 'never', 'enum', 'agg'):
+            # a boolean expression returned as such (`a != EMPTY` as tail expression): decide it like a condition
+            neg = False
+            y = x
+            while y[0] == 'un' and y[1] == 'Not':
+                neg, y = not neg, y[2]
+            ch = decide(y, [0, 'otherwise'])
+            if ch is not None:
+                tv = (ch == 'otherwise') != neg
+                return [('int', int(tv), 'bool')]
+        return [x]
 
-    rec(e)
-    return out
+    def pick(x, ch):
+        for v, sub in x[2]:
+            if v == ch:
+                return rec(sub)
+        for v, sub in x[2]:
+            if v == 'otherwise':
+                return rec(sub)
+        return []
+
+    return rec(e)
 
 
 def as_bool(ch, vals):
@@ -387,6 +418,14 @@ def paths_deep(e, limit=5000):
     """like paths_of, but also splits on ite nodes nested inside aggregates and call arguments.
     Conditions of the outer tree come first. Branches whose value is `never` are dropped."""
     out = []
+    _nc = {}
+
+    def ncache(c):
+        # the same condition may reach two components in forms that differ only in wrappers / call-site ids
+        k = id(c)
+        if k not in _nc:
+            _nc[k] = (c, norm(c))
+        return _nc[k][1]
 
     def rec(x, conds):
         if len(out) > limit:
@@ -400,7 +439,8 @@ def paths_deep(e, limit=5000):
         if inner is not None:
             it = inner
         allv = tuple(c for c, _ in it[2])
-        decided = [v for c, v, _ in conds if c == it[1]]
+        nc = ncache(it[1])
+        decided = [v for c, v, _ in conds if c == it[1] or ncache(c) == nc]
         for v, sub in it[2]:
             if sub == ('never',):
                 continue
@@ -545,3 +585,67 @@ def walk_all(e):
     if isinstance(e, tuple):
         for x in e:
             yield from walk_all(x)
+
+
+def specialise(ctx, s, consts, nparams=None, config=None):
+    """the return value of summary `s` with some parameters fixed to constants ({param number: const expr}) and folded;
+    the other parameters stay symbolic.  Used to read finite maps (per colour / per piece) off a function however its
+    decision is spelled."""
+    il = inliner(ctx, config) if config else inliner(ctx)
+    n = nparams or len(s.body.raw.get('args', [])) or max([0] + list(consts)) if hasattr(s.body, 'raw') else max([0] + list(consts))
+    n = max(n, max([0] + list(consts)))
+    args = tuple(consts.get(i, ('param', i)) for i in range(1, n + 1))
+    return norm(il.fold(il.subst(s.ret, args)))
+
+
+def expanded_calls(ctx, s, is_target, depth=2, config=None):
+    """the calls of summary `s` that satisfy is_target(call), looking through private crate helpers: a call of a helper
+    whose body makes target calls unconditionally is replaced by those calls, with the helper's parameters and its
+    (single) generic parameter substituted by the arguments of the call site.  Records keep the OUTER block/line, so
+    guards are those of the call site.  A helper that makes target calls conditionally yields a record with
+    callee=None (unknown)."""
+    il = inliner(ctx, config) if config else inliner(ctx)
+    an = ctx.an(config) if config else ctx.an()
+    facts = ctx.facts(config) if config else ctx.facts()
+    out = []
+
+    def has_target(key, d, seen):
+        body = facts.bodies.get(key)
+        if body is None or key in seen or d < 0:
+            return False
+        sm = an.summary(key)
+        if sm is None:
+            return False
+        return any(is_target(c) or (c['callee'] in facts.bodies and has_target(c['callee'], d - 1, seen | {key})) for c in sm.calls if c['callee'])
+
+    def rec(sm, outer, args, gsub, d):
+        for c in sm.calls:
+            if not c['callee']:
+                continue
+            argvals = tuple(norm(il.subst(a, args)) if args is not None else a for a in c['argvals'])
+            gargs = tuple(gsub.get(g, g) for g in c['gargs'])
+            callee = c['callee']
+            for g, v in gsub.items():
+                # trait-static calls carry the type in the callee key: `<T as Trait>::f`
+                callee = callee.replace('<%s as ' % g, '<%s as ' % v)
+            rc = dict(c, callee=callee, argvals=argvals, gargs=gargs)
+            if outer is not None:
+                rc.update(blk=outer['blk'], line=outer['line'], via=sm.body.key if hasattr(sm.body, 'key') else None)
+            if is_target(rc):
+                if outer is not None and dnf(sm, c['blk']) not in ([], [[]]) and any(g_['cond'] is not None for conj in dnf(sm, c['blk']) for g_ in conj):
+                    out.append(dict(rc, callee=None, why='conditional inside helper'))
+                else:
+                    out.append(rc)
+            elif d > 0 and callee in facts.bodies and has_target(callee, d - 1, set()):
+                hs = an.summary(callee)
+                gs = {}
+                free = sorted({g for cc in hs.calls for g in cc['gargs'] if isinstance(g, str) and '::' not in g and g[:1].isupper() and len(g) <= 2})
+                if len(free) == 1 and len(c['gargs']) >= 1:
+                    gs[free[0]] = gargs[-1]
+                elif free:
+                    out.append(dict(rc, callee=None, why='helper with several generic parameters'))
+                    continue
+                o2 = outer if outer is not None else c
+                rec(hs, dict(blk=o2['blk'], line=o2['line']), argvals, gs, d - 1)
+    rec(s, None, None, {}, depth)
+    return out
